@@ -30,7 +30,7 @@ def sched_job(run, binary, sc, max_dfs, n_random, chunk=4000):
                 raise core.Inconclusive("idempotency schedule driver did not finish")
             viol += v
             tot["dfs"] += n
-            for k in ("traces", "events", "deadlocks", "keys_answered_more_than_once"):
+            for k in ("traces", "events", "deadlocks", "keys_answered_more_than_once", "transient_blocks_resolved_by_patience"):
                 tot[k] += summary[k]
             with open(part) as fh:
                 out.write(fh.read())
